@@ -344,6 +344,7 @@ def conflicts(hyps=()):
     A1 = [a for a in ACCESS if a[0] == 1]
     out = []
     seen = set()
+    keep = []
     for a in A0:
         for c in A1:
             if a[2] != c[2] or "w" not in (a[1], c[1]):
@@ -359,10 +360,12 @@ def conflicts(hyps=()):
                 else:
                     comps.append(L(x) == L(y))
             f = z3.And(*comps) if comps else z3.BoolVal(True)
-            key = (a[2], a[1], c[1], z3.simplify(f).get_id())
+            sf = z3.simplify(f)
+            key = (a[2], a[1], c[1], sf.get_id())
             if key in seen:
                 continue
             seen.add(key)
+            keep.append(sf)  # keep the AST alive: z3 recycles ids of collected terms
             out.append(("%s: iteration0 %s / iteration1 %s" % (a[2], a[1], c[1]), f))
     return out
 
